@@ -4,6 +4,8 @@ import OW.Proofs.C12Decay
 import OW.Proofs.C12Trapping
 import OW.Proofs.C12PN
 import OW.Proofs.C12Fine
+import OW.Proofs.C12FineExamples
+import OW.Proofs.C12Zip
 /-!
 # C12 — constituent transport and trapping models conserve mass
 
@@ -20,6 +22,14 @@ where `flushed` is the ghost output of the model's minimum-volume branch, togeth
 can be non-zero only on a step whose working volume is below the threshold. Every division executed by a kernel
 has a divisor that is proved non-zero from the branch condition or from a stated parameter range (`divisors_pos_*`).
 `nonneg_M`: loads and stores stay non-negative for non-negative inputs and parameters in range.
+ASSUMPTION "equal series lengths". The theorems quantify over the list `xs` of per-step input tuples. `KModel.run`
+builds it from the input series with `zip3/zip4/zip5/zipIn`, which TRUNCATE to the shortest series, where the Go
+kernel loops to the length of its first series and panics (`index out of range`) on a shorter one. So the theorems
+speak about calls whose input series have one common length — which is every `xs` (`zipN_columns`: each `xs` is the
+zip of its own columns; `zipN_faithful`: for equal lengths the zip has that length and those columns) — and say
+nothing about calls with unequal lengths (there the model is shorter than the code's panic; the generated wrapper
+never makes such a call: the series of a cell are rows of one `[cell, input, time]` array). `StorageTrapAll` reads one
+series only and is stated on `model.run` itself.
 The models are the code AFTER the repairs in /verif/fixes (see the kernel files); the pinned code violates the budget
 in `InstreamFineSediment` for bank-full flow 0 (drops the reach-local mass) and produces NaN for
 `outflow == bankFullFlow` without floodplain — both reported by the C12 oracle with a failing input.
@@ -135,8 +145,20 @@ example : (InstreamCoarseSediment.run 10 (5, 7) [((1 : ℝ), 2, 3)]).1 = (72, 0)
 state: channelStoreFine, totalStoredMass) -/
 
 open InstreamFineSediment (Params) in
-/-- **budget_InstreamFineSediment.** Hypothesis: Δt ≠ 0 (divisor of `loadToFloodplain`); every other divisor is
-positive on its branch (`totalVolume > 0`, `combined > 0`, `workingVol ≥ 0.01`) or is covered by `divisors_pos_*`.
+/-- **budget_InstreamFineSediment.** Hypothesis: Δt ≠ 0 (divisor of `loadToFloodplain`).
+What is proved about divisors — exactly: the budget identity cancels THREE divisions and each of those divisors is
+non-zero inside the proof: Δt (this hypothesis; `fp/Δt·Δt = fp`), `totalVolume` on the branch `totalVolume > 0` of the
+main path (`conc·totalVolume`), and the working volume on the branch `¬ workingVol < 0.01` of the bank-full-flow-0
+path (`lumped_step`). NOTHING is claimed here about the other divisors of the kernel: `floodPlainDepositionEmperical`
+(divisors `outflow`, `Qf = outflow − bankFullFlow`) and `inChannelStorage` (divisor `v·width^0.4·n^0.6` of the
+transport capacity, twice) are opaque values in this proof (`generalize`d in `fine_stepMain_budget`) — the identity
+holds WHATEVER they return, so also for `fineSedSettVelocity = 0`, `fineSedReMobVelocity = 0`, `linkWidth = 0` or
+`manningsN = 0`, where ℝ's `x/0 = 0` gives a finite capacity and float64 gives ±Inf/NaN (no sign hypothesis excludes
+them here; the theorem is then about the ℝ model only). The two ratio outputs (divisor `combined > 0` on its branch)
+do not enter the budget. Those divisors are treated where the parameter ranges are: `outflow` and `Qf` are positive
+on the dividing branch of the main path by the branch conditions alone (`divisors_branch_InstreamFineSediment`);
+the transport-capacity divisor is positive under `FineRange` (`divisors_pos_InstreamFineSediment` — a hypothesis on
+the parameters, not a branch condition of the code), and `nonneg_InstreamFineSediment` is the theorem that assumes it.
 Both paths (bank-full flow ≤ 1e-8: lumped routing of everything that enters; otherwise floodplain deposition and
 channel-store exchange), any parameters, stores, inputs. With `start` = the state the loop starts from (a negative
 initial channel store is read as a proportion of the maximum):
@@ -260,13 +282,41 @@ theorem remob_le_store (q totalVolume mass store w slope n vs vr maxS : ℝ) (hq
   ⟨(fine_inChannel_facts q totalVolume mass store w slope n vs vr maxS hq hsl hw hn hvs hvr hm hst hmax).2.1,
    (fine_inChannel_facts q totalVolume mass store w slope n vs vr maxS hq hsl hw hn hvs hvr hm hst hmax).1⟩
 
-/-- the divisors of the fine-sediment formulas are positive where they are used: the transport-capacity divisor
-`v·width^0.4·n^0.6` for positive velocity, width, roughness; `outflow` and `Qf = outflow − bankFullFlow` on the branch
-`outflow > bankFullFlow > 0` of the (repaired) floodplain deposition -/
+/-- the divisors of the fine-sediment formulas are positive for NUMBERS in the stated ranges (this lemma does not
+mention the kernel): the transport-capacity divisor `v·width^0.4·n^0.6` for positive velocity, width, roughness —
+parameter hypotheses (`FineRange`), the code has no branch protecting it; `outflow` and `Qf = outflow − bankFullFlow`
+for `outflow > bankFullFlow > 0` — tied to the kernel's own branch conditions by
+`divisors_branch_InstreamFineSediment` below -/
 theorem divisors_pos_InstreamFineSediment (v w n q bff : ℝ) (hv : 0 < v) (hw : 0 < w) (hn : 0 < n)
     (hb : 0 < bff) (hq : bff < q) :
     0 < v * w ^ (0.4 : ℝ) * n ^ (0.6 : ℝ) ∧ 0 < q ∧ 0 < q - bff :=
   ⟨fine_stc_divisor_pos v w n hv hw hn, by linarith, by linarith⟩
+
+open InstreamFineSediment (Params) in
+/-- the two divisors of the (repaired) floodplain deposition, from the code's branch conditions only: on the main
+path (`¬ bankFullFlow ≤ 1e-8`) the function divides exactly when its guard
+`outflow ≤ bankFullFlow || bankFullFlow == 0` is false, and then `outflow > 0` and `Qf = outflow − bankFullFlow > 0`;
+when the guard is true it returns the literal 0 without dividing. No parameter range is assumed. -/
+theorem divisors_branch_InstreamFineSediment (p : Params ℝ) (hmain : ¬ p.bankFullFlow ≤ 1e-8) (q total : ℝ) :
+    (¬ (q ≤ p.bankFullFlow ∨ p.bankFullFlow = 0) → 0 < q ∧ 0 < q - p.bankFullFlow) ∧
+    ((q ≤ p.bankFullFlow ∨ p.bankFullFlow = 0) →
+      InstreamFineSediment.floodPlainDepositionEmperical q total p.bankFullFlow p.fineSedSettVelocityFlood
+        p.floodPlainArea = 0) := by
+  have hb : 0 < p.bankFullFlow := by
+    have : (1e-8 : ℝ) < p.bankFullFlow := not_le.mp hmain
+    have h8 : (0 : ℝ) < 1e-8 := by norm_num
+    linarith
+  refine ⟨fun h => ?_, fun h => ?_⟩
+  · have hq : p.bankFullFlow < q := not_le.mp (fun hle => h (Or.inl hle))
+    exact ⟨by linarith, by linarith⟩
+  · unfold InstreamFineSediment.floodPlainDepositionEmperical
+    have hg : (decide (q ≤ p.bankFullFlow) || Num.feq p.bankFullFlow (0.0 : ℝ)) = true := by
+      rcases h with h | h
+      · simp [h]
+      · exact absurd h (ne_of_gt hb)
+    simp only [hg, if_true]
+    realnum
+    norm_num
 
 /-- non-vacuity of `FineRange` and of the hypotheses of `nonneg_InstreamFineSediment` (a 20 m × 5 km link) -/
 example : FineRange (⟨10, 1e-4, 1e6, 20, 5000, 1e-3, 2, 0.5, 1.5, 0.04, 1e-4, 2e-4, 86400⟩ : InstreamFineSediment.Params ℝ) := by
@@ -276,6 +326,44 @@ example (p : InstreamFineSediment.Params ℝ) (hr : FineRange p) (hb : ¬ p.bank
     0 ≤ (InstreamFineSediment.run p (-0.5, 100) [((1 : ℝ), 2, 3, 1000, 12), (0, 0, 0, 0, 0)]).1.1 :=
   (nonneg_InstreamFineSediment p hr (-0.5, 100) _ (by norm_num) (fun h => absurd h hb)
     (List.forall_mem_cons.mpr ⟨by norm_num, List.forall_mem_cons.mpr ⟨by norm_num, fun _ h => absurd h List.not_mem_nil⟩⟩)).1
+
+/-- non-vacuity, branch `fine:remob` (with `fine:noflood`): parameters in `FineRange`; the model's own branch
+classifier returns these tags for the step; 950 kg are remobilised (net deposition −950) out of the 1000 kg of the
+channel store, uncapped. The budget of `budget_InstreamFineSediment` on these numbers:
+`50 + 0 = 900 + (10·10 + 0·10 − 950 + 0)` and `1000 + 50 = 50 + 900 + 10·10`. -/
+example :
+    FineRange fineRemobParams ∧
+    InstreamFineSediment.classify fineRemobParams (InstreamFineSediment.start fineRemobParams (1000, 50))
+      (0, 0, 0, 90, 1) = ["fine:noflood", "fine:remob"] ∧
+    (InstreamFineSediment.run fineRemobParams (1000, 50) [(0, 0, 0, 90, 1)]).1 = (50, 900) ∧
+    (InstreamFineSediment.run fineRemobParams (1000, 50) [(0, 0, 0, 90, 1)]).2.map
+      (fun o => (o.loadDownstream, o.loadToFloodplain, o.loadToChannelDeposition, o.flushed)) = [(10, 0, -950, 0)] :=
+  ⟨fineRemobParams_range, fine_example_remob⟩
+
+/-- non-vacuity, branch `fine:flood` (with `fine:deposit`): parameters in `FineRange`, outflow 1 above bank-full 0.5;
+a POSITIVE floodplain load `50·(1 − e⁻¹)` kg/s (Δt = 10 s), channel deposition `400 + 500·e⁻¹` kg, 1 kg/s downstream,
+90 kg stay: `1000 + 0 = 90 + (1·10 + 50(1 − e⁻¹)·10 + 400 + 500e⁻¹ + 0)`. -/
+example :
+    FineRange fineFloodParams ∧
+    InstreamFineSediment.classify fineFloodParams (InstreamFineSediment.start fineFloodParams (0, 1000))
+      (0, 0, 0, 90, 1) = ["fine:flood", "fine:deposit"] ∧
+    (InstreamFineSediment.run fineFloodParams (0, 1000) [(0, 0, 0, 90, 1)]).1 = (400 + 500 * Real.exp (-1), 90) ∧
+    (InstreamFineSediment.run fineFloodParams (0, 1000) [(0, 0, 0, 90, 1)]).2.map
+      (fun o => (o.loadDownstream, o.loadToFloodplain, o.loadToChannelDeposition, o.flushed)) =
+        [(1, 50 * (1 - Real.exp (-1)), 400 + 500 * Real.exp (-1), 0)] ∧
+    0 < 50 * (1 - Real.exp (-1)) :=
+  ⟨fineFloodParams_range, fine_example_flood⟩
+
+/-- non-vacuity of `divisors_branch_InstreamFineSediment`: the flood example is on the main path and takes the dividing
+branch of the floodplain formula (guard false), so its two divisors are positive; the remobilisation example
+(outflow 1 ≤ bank-full 2) takes the guarded branch and deposits exactly 0 on the floodplain -/
+example : 0 < (1 : ℝ) ∧ 0 < 1 - fineFloodParams.bankFullFlow :=
+  (divisors_branch_InstreamFineSediment fineFloodParams (by simp only [fineFloodParams]; norm_num) 1 1000).1
+    (by simp only [fineFloodParams]; norm_num)
+example : InstreamFineSediment.floodPlainDepositionEmperical 1 50 fineRemobParams.bankFullFlow
+    fineRemobParams.fineSedSettVelocityFlood fineRemobParams.floodPlainArea = 0 :=
+  (divisors_branch_InstreamFineSediment fineRemobParams (by simp only [fineRemobParams]; norm_num) 1 50).2
+    (Or.inl (by simp only [fineRemobParams]; norm_num))
 
 /-! ## InstreamParticulateNutrient (state: instreamStoredMass, channelStoredMass) -/
 
@@ -361,6 +449,61 @@ theorem nonneg_InstreamParticulateNutrient (pnc spf dt : ℝ) (st : ℝ × ℝ) 
       0 ≤ o.loadDownstream ∧ 0 ≤ o.loadToFloodplain ∧ 0 ≤ o.loadFromStreambank ∧ 0 ≤ o.flushed)
     (fun _ _ h => h) h.2.2⟩
 
+open InstreamParticulateNutrient (In) in
+/-- **loadDeposited is not reported on flushed steps** (an OBSERVATION on the code, outside the property text — the
+budget above is over the two stores and closes; recorded in DESIGN §0.4). On every step of every run whose working
+volume is below MINIMUM_VOLUME (`outflow·Δt + reachVolume < 0.01`) the reported `loadDeposited` is 0 (the code
+`continue`s before `loadDeposited.Set`) and the in-stream store is emptied, while — second clause of
+`budget_InstreamParticulateNutrient` — the channel store has moved by the ghost `bedExchange` of that step, which
+need not be 0 (example below: 5 kg deposited, 0 reported). Hence `Σ loadDeposited` reconstructs the channel store only
+over the non-flushed steps. No hypothesis (no division is involved in these clauses). -/
+theorem loadDeposited_unreported_on_flush_InstreamParticulateNutrient (pnc spf dt : ℝ) (st : ℝ × ℝ) (xs : List (In ℝ)) :
+    List.Forall₂ (fun (sx : (ℝ × ℝ) × In ℝ) o =>
+        sx.2.outflow * dt + sx.2.reachVolume < 0.01 →
+          o.loadDeposited = 0 ∧ o.loadDownstream = 0 ∧
+          (InstreamParticulateNutrient.step pnc spf dt sx.1 sx.2).1 = (0, sx.1.2 + o.bedExchange))
+      ((preStates (InstreamParticulateNutrient.step pnc spf dt) st xs).zip xs)
+      (InstreamParticulateNutrient.run pnc spf dt st xs).2 := by
+  unfold InstreamParticulateNutrient.run
+  refine scan_state_rel (InstreamParticulateNutrient.step pnc spf dt) (fun _ => True) (fun _ => True)
+    (fun s i o => i.outflow * dt + i.reachVolume < 0.01 →
+      o.loadDeposited = 0 ∧ o.loadDownstream = 0 ∧
+      (InstreamParticulateNutrient.step pnc spf dt s i).1 = (0, s.2 + o.bedExchange))
+    ?_ xs st trivial (fun _ _ => trivial)
+  rintro ⟨s, cs⟩ ⟨up, lat, vol, q, sbe, ls, fdf, cdf⟩ _ _
+  refine ⟨trivial, fun hlow => ?_⟩
+  simp only [] at hlow
+  unfold InstreamParticulateNutrient.step
+  simp only []
+  realnum
+  generalize InstreamParticulateNutrient.forDeposition s (up * dt) (lat * dt) ls +
+    sbe * pnc * dt * (spf / 100) = fd
+  generalize min (max fdf (0.0 : ℝ)) (1.0 : ℝ) = fpf
+  have be2 := (pn_bedExchange_facts cdf fd (fpf * fd) cs).1
+  generalize InstreamParticulateNutrient.bedExchange cdf fd (fpf * fd) cs = be at be2 ⊢
+  obtain ⟨bex, csn⟩ := be
+  simp only [] at be2 ⊢
+  split_ifs with h
+  · realnum
+    have h0 : ((0.0 : ℝ)) = 0 := by norm_num
+    rw [h0, be2]
+    exact ⟨trivial, rfl, rfl⟩
+  · simp only [LumpedConstituent.minimumVolume] at h
+    realnum
+    exact absurd hlow h
+
+/-- the witness: a dry step (no flow, no volume) with 10 kg in the water and a channel deposition fraction of 0.5:
+the channel store goes from 0 to 5 kg, `loadDeposited` reports 0, the other 5 kg are dropped (ghost `flushed`) -/
+example :
+    (InstreamParticulateNutrient.run 0 0 10 (10, 0) [⟨(0 : ℝ), 0, 0, 0, 0, 0, 0, 0.5⟩]).1 = (0, 5) ∧
+    ((InstreamParticulateNutrient.run 0 0 10 (10, 0) [⟨(0 : ℝ), 0, 0, 0, 0, 0, 0, 0.5⟩]).2.map
+      fun o => (o.loadDeposited, o.bedExchange, o.flushed)) = [(0, 5, 5)] := by
+  simp only [InstreamParticulateNutrient.run, scan, InstreamParticulateNutrient.step,
+    InstreamParticulateNutrient.forDeposition, InstreamParticulateNutrient.bedExchange,
+    LumpedConstituent.minimumVolume]
+  realnum
+  norm_num
+
 example : 0 ≤ (InstreamParticulateNutrient.run 0.001 40 86400 (5, 0)
     [⟨(1 : ℝ), 2, 1000, 3, 10, 1, 0.2, 0.1⟩, ⟨0, 0, 0, 0, 0, 0, 0, -0.5⟩]).1.1 :=
   (nonneg_InstreamParticulateNutrient 0.001 40 86400 (5, 0) _ (by norm_num) (by norm_num) (by norm_num) (by norm_num)
@@ -400,10 +543,52 @@ example : 0 ≤ (StorageParticulateTrapping.run ⟨86400, 1e8, 1e4, 112, 800, 3.
 
 /-! ## StorageTrapAll -/
 
-/-- **budget_StorageTrapAll.** The model carries NO Δt: the trapped series is the inflow series with the initial
-store added to its first element, so the budget is in the units of the inflow series:
-`Σ inflow + stored₀ = Σ trapped + stored_final` with `stored_final = 0`, nothing goes downstream. (Stated for a
-non-empty series; on an empty series the code indexes element 0 and panics — modelled as `none`.) -/
+/-- **budget_StorageTrapAll** (on the adapter `StorageTrapAll.model.run`: the outputs and the FINAL STORE are read
+from the model's result, nothing is a literal of the statement). The model carries NO Δt: the trapped series is the
+inflow-mass series with the initial store added to its first element, so the budget is in the units of the
+inflow-mass series. For EVERY inflow-mass series — the empty one included — every other input series (never read,
+any lengths) and every initial store, the run succeeds (no error class) and returns two output series `trapped`,
+`out` and one state `sf` with
+* `Σ inflowMass + stored₀ = Σ trapped + sf`, `out` (the downstream load) identically 0, both of the length of the
+  inflow-mass series;
+* non-empty series: `sf = 0` (everything held is released into `trapped[0]`);
+* empty series: `sf = stored₀`, both outputs empty (the repaired code — fixes/trapall-empty-series.diff, /repo ab1fdc8 —
+  returns the stored mass unchanged; the pinned code indexed element 0 of an empty array);
+* non-negative store and inflow masses ⇒ `trapped` and `sf` non-negative. -/
+theorem budget_StorageTrapAll_model (inflowMass inflow outflow volume : List ℝ) (s0 : ℝ) :
+    ∃ (r : KOut ℝ) (trapped out : List ℝ) (sf : ℝ),
+      (StorageTrapAll.model (α := ℝ)).run [] [inflowMass, inflow, outflow, volume] [s0] = .ok r ∧
+      r.outputs = [trapped, out] ∧ r.states = [sf] ∧
+      inflowMass.sum + s0 = trapped.sum + sf ∧
+      (∀ y ∈ out, y = 0) ∧ trapped.length = inflowMass.length ∧ out.length = inflowMass.length ∧
+      (inflowMass ≠ [] → sf = 0) ∧
+      (inflowMass = [] → sf = s0 ∧ trapped = [] ∧ out = []) ∧
+      (0 ≤ s0 → (∀ x ∈ inflowMass, 0 ≤ x) → 0 ≤ sf ∧ ∀ y ∈ trapped, 0 ≤ y) := by
+  cases inflowMass with
+  | nil =>
+    exact ⟨_, [], [], s0, rfl, rfl, rfl, by simp, by simp, rfl, rfl, fun h => absurd rfl h,
+      fun _ => ⟨rfl, rfl, rfl⟩, fun hs _ => ⟨hs, by simp⟩⟩
+  | cons x xs =>
+    refine ⟨{ outputs := [(x + s0) :: xs, zeros (xs.length + 1)], states := [0], tags := ["trapall"] },
+      (x + s0) :: xs, zeros (xs.length + 1), 0, ?_, rfl, rfl, ?_, ?_, by simp, by simp [zeros],
+      fun _ => rfl, fun h => absurd h (List.cons_ne_nil _ _), fun hs hx => ⟨le_refl _, ?_⟩⟩
+    · simp only [StorageTrapAll.model, StorageTrapAll.trapped, List.length_cons]
+      realnum
+      norm_num
+    · simp only [List.sum_cons]; ring
+    · intro y hy
+      simp only [zeros, List.mem_replicate] at hy
+      rw [hy.2]; rfl
+    · intro y hy
+      rcases List.mem_cons.mp hy with rfl | hy
+      · have := hx x (List.mem_cons_self ..); linarith
+      · exact hx y (List.mem_cons_of_mem _ hy)
+
+/-- **budget_StorageTrapAll** (on the kernel function `trapped`; `budget_StorageTrapAll_model` is the statement on the
+model's run, which also reads the final store from the model). `trapped` returns `some t` exactly on a non-empty
+series: `Σ inflow + stored₀ = Σ t` (the `+ 0` is the final store of that case, see `budget_StorageTrapAll_model`),
+`t` as long as the inflow series. On the empty series `trapped` is `none` and the model — as the repaired code —
+returns the stored mass unchanged with empty outputs (it does NOT panic). -/
 theorem budget_StorageTrapAll (inflow : List ℝ) (s0 : ℝ) (t : List ℝ)
     (h : StorageTrapAll.trapped inflow s0 = some t) :
     inflow.sum + s0 = t.sum + 0 ∧ t.length = inflow.length :=
@@ -417,6 +602,19 @@ theorem nonneg_StorageTrapAll (inflow : List ℝ) (s0 : ℝ) (t : List ℝ)
 example : StorageTrapAll.trapped [(1 : ℝ), 2, 3] 10 = some [11, 2, 3] := by
   simp only [StorageTrapAll.trapped]; realnum; norm_num
 example : StorageTrapAll.trapped ([] : List ℝ) 10 = none := rfl
+
+/-- non-vacuity on the model's run: a three-step series (the other three input series are not read: here of lengths
+0, 1, 2) releases the 10 kg held into the first element and ends with store 0 … -/
+example : (StorageTrapAll.model (α := ℝ)).run [] [[1, 2, 3], [], [7], [8, 9]] [10] =
+    .ok { outputs := [[11, 2, 3], [0, 0, 0]], states := [0], tags := ["trapall"] } := by
+  simp only [StorageTrapAll.model, StorageTrapAll.trapped, zeros, List.length_cons, List.length_nil]
+  realnum
+  norm_num [List.replicate]
+/-- … and the EMPTY series is a successful run that keeps the 10 kg (no error class, both outputs empty) -/
+example : (StorageTrapAll.model (α := ℝ)).run [] [[], [], [], []] [10] =
+    .ok { outputs := [[], []], states := [10], tags := ["trapall-empty"] } := rfl
+/-- a malformed call (three input series) is the error class "arity", not a default value -/
+example : (StorageTrapAll.model (α := ℝ)).run [] [[1], [1], [1]] [10] = .error "arity" := rfl
 
 /-! ## StorageDissolvedDecay with decay disabled (`doStorageDecay < 0.5`) -/
 
